@@ -65,6 +65,64 @@ def grammar_facts(rep, vmod, VG, vg, bmod, BG, bg):
     rep.ob('C11.lexical', 'verilog: // and /* */ comments and (* *) attributes are %ignore-d', ok)
     if not ok:
         rep.violate('C11.lexical', vmod, '<module>', 'COMMENT', 'verilog grammar must ignore line comments, block comments and (* attributes *)', node=vg)
+    # the ignored-token language itself, decided by bounded exhaustive comparison: every string over {/ * ( ) a \n} up to
+    # length 6 (and over {/ * a} up to length 9) is matched by the ignore terminal iff it is a non-empty sequence of
+    # /* ... */ (ending at the first */), (* ... *) (ending at the first *)), // ... newline(s), or bare newlines.
+    import itertools
+    import re as _re
+    ign_re = None
+    for t in VG.lark.terminals:
+        if t.name in (VG.lark.ignore_tokens if hasattr(VG.lark, 'ignore_tokens') else []) and 'COMMENT' in txt and '\\/\\*' in t.pattern.to_regexp():
+            ign_re = _re.compile(t.pattern.to_regexp())
+    if ign_re is None:
+        rep.violate('C11.lexical', vmod, '<module>', '%ignore', 'no ignored terminal containing the block-comment pattern was found', node=vg)
+    else:
+        def piece_ends(sx, i):
+            """end positions of one ignorable piece starting at i"""
+            out = []
+            if sx.startswith('/*', i):
+                j = sx.find('*/', i + 2)
+                if j >= 0:
+                    out.append(j + 2)
+            if sx.startswith('(*', i):
+                j = sx.find('*)', i + 2)
+                if j >= 0:
+                    out.append(j + 2)
+            if sx.startswith('//', i):
+                j = sx.find('\n', i + 2)
+                if j >= 0:
+                    while j < len(sx) and sx[j] == '\n':
+                        j += 1
+                        out.append(j)
+            if sx.startswith('\n', i):
+                out.append(i + 1)
+            return out
+
+        def spec(sx):
+            reach = {0}
+            for i in range(len(sx)):
+                if i in reach:
+                    reach.update(piece_ends(sx, i))
+            return len(sx) in reach and len(sx) > 0
+        bad = None
+        nchk = 0
+        for alpha, nmax in (('/*()a\n', 6), ('/*a', 9)):
+            for n in range(1, nmax + 1):
+                for tup in itertools.product(alpha, repeat=n):
+                    sx = ''.join(tup)
+                    nchk += 1
+                    if (ign_re.fullmatch(sx) is not None) != spec(sx):
+                        bad = sx
+                        break
+                if bad is not None:
+                    break
+            if bad is not None:
+                break
+        rep.ob('C11.lexical', 'ignored-token language = (block comment | attribute | line comment | newline)+ on all short strings', bad is None, evals=nchk)
+        if bad is not None:
+            rep.violate('C11.lexical', vmod, '<module>', 'COMMENT / %ignore', f'the ignored-token pattern {"accepts" if ign_re.fullmatch(bad) else "rejects"} {bad!r}, but a comment ends at '
+                        f'its first terminator: text after a comment such as /***/ would be swallowed up to the next terminator (or the comment is a syntax error)',
+                        witness={'string': bad, 'matched by the grammar': ign_re.fullmatch(bad) is not None, 'is a sequence of comments/newlines': spec(bad)}, node=vg)
     ok = "/\\\\[^\\t \\r\\n]+[\\t \\r\\n]/i" in txt and "/[0-9]+'[bdh][0-9a-f]+/i" in txt and '/[a-z_][a-z0-9_]*/i' in txt
     rep.ob('C11.lexical', 'verilog name = identifier | escaped identifier up to white space | sized constant', ok)
     if not ok:
@@ -283,6 +341,16 @@ def bench_rules(rep, bmod, bmeth):
     rep.ob('C11.bench', 'start returns the circuit', ok)
     if not ok:
         rep.violate('C11.bench', bmod, s, 'start', 'bench start must return the circuit', node=s)
+
+
+def depends(rep, repo):
+    """"Once parsed and its library cells resolved": resolution is Circuit.resolve_tlib_cells -> substitute; its rules
+    (the k-th instance pin meets the k-th implementation port, every node_map read is defined, designated-cell handling) are
+    part of this check. Rule ids keep their C10. prefix."""
+    from checks import c10
+    cmod = repo.mod('circuit')
+    c10.resolve_rules(rep, cmod)
+    c10.substitute_rules(rep, repo, cmod)
 
 
 def thorough(rep, repo):
